@@ -178,7 +178,12 @@ class GPSData(BytesInterface):
             + f"{self.latitude:09.4f}"
             + self.east_west
             + f"{self.longitude:010.4f}"
-            + ("\0" * 3 if self.speed_knots <= 0 else f"{self.speed_knots:03}")
+            + (
+                "\0" * 3
+                if self.speed_knots <= 0
+                # the field is exactly three characters wide
+                else f"{self.speed_knots:03.1f}"[:3]
+            )
             + ("\0" * 3 if not self.direction else f"{self.direction:03}")
         ).encode("ascii")
 
